@@ -1,5 +1,61 @@
 package main
 
-// Environment stubs (os, net, tls, websocket ...) registered here.
+// Environment stubs: the kernel network is replaced by the harness network
+// (package zzverif/vnet); the VM only routes the std-lib entry points to it.
+
+import (
+	"go/token"
+	"go/types"
+	"strings"
+
+	"golang.org/x/tools/go/ssa"
+)
+
+const vnetPkg = "go.nanomsg.org/mangos/v3/zzverif/vnet"
+
+func (g *G) vnetHook(name string) Value {
+	p := g.vm.prog.ImportedPackage(vnetPkg)
+	if p == nil {
+		panic(unsupported("network access without the harness network (zzverif/vnet not loaded)"))
+	}
+	gl, ok := p.Members[name].(*ssa.Global)
+	if !ok {
+		panic(unsupported("vnet hook missing: " + name))
+	}
+	fv := *g.vm.globalAddr(gl)
+	if isNilFn(fv) {
+		panic(unsupported("network access before vnet.Install()"))
+	}
+	return fv
+}
+
 func registerEnvIntrinsics(I map[string]Intrinsic) {
+	I["(*net.ListenConfig).Listen"] = func(g *G, a []Value, pos token.Pos) Value {
+		g.vm.ex.stubsUsed["net.ListenConfig.Listen -> vnet"]++
+		return g.call(g.vnetHook("ListenHook"), []Value{a[2], a[3]}, pos)
+	}
+	I["(*net.Dialer).Dial"] = func(g *G, a []Value, pos token.Pos) Value {
+		g.vm.ex.stubsUsed["net.Dialer.Dial -> vnet"]++
+		return g.call(g.vnetHook("DialHook"), []Value{a[1], a[2]}, pos)
+	}
+	I["net.DialTimeout"] = func(g *G, a []Value, pos token.Pos) Value {
+		g.vm.ex.stubsUsed["net.DialTimeout -> vnet"]++
+		return g.call(g.vnetHook("DialHook"), []Value{a[0], a[1]}, pos)
+	}
+	I["net.ResolveTCPAddr"] = func(g *G, a []Value, pos token.Pos) Value {
+		g.vm.ex.stubsUsed["net.ResolveTCPAddr (syntactic)"]++
+		addr := argStr(a[1])
+		if strings.Contains(addr, "bad") || !strings.Contains(addr, ":") {
+			return Tuple{(*Value)(nil), g.mkError("vnet: cannot resolve " + addr)}
+		}
+		t := g.vm.lookupType("net", "TCPAddr")
+		p := new(Value)
+		*p = zero(t)
+		return Tuple{p, nilErr()}
+	}
+	I["context.Background"] = func(g *G, a []Value, pos token.Pos) Value {
+		t := g.vm.lookupType("context", "backgroundCtx")
+		return Iface{T: t, V: zero(t)}
+	}
+	_ = types.Typ
 }
